@@ -43,6 +43,30 @@ CHECKS = {
         text="xargs is run under strace -f over a grid of argument counts up to 6e5 (quick) / 1e6 (thorough), length distributions from 1 byte to the 131071-byte per-argument limit, environment sizes to 1MB, RLIMIT_STACK 512KiB..unlimited, with/without -n/-s (including -s above the OS budget); the kernel itself is the oracle for acceptance, the recorder chain for delivery. Over-long single arguments must give exit 1 and never reach exec.",
         note="Verdict is for this kernel's execve accounting and glibc sysconf(ARG_MAX); per-argument limit = 32 pages.",
         ref="DESIGN.md section 4 C06"),
+    "C07": dict(
+        technique="runtime monitoring: byte-exact oracle over find's stdout (tree spec with known name bytes) + recorder argv multiset/sequence behind the real `find -print0 | xargs -0` pipe",
+        level="exploration",
+        text="Trees whose names are drawn from hostile valid-UTF-8 classes (blank-only, edge blanks, leading dashes, newlines, quotes, backslashes, {}, command substitutions, glob and control characters, 2-4-byte characters, 255-byte names) are walked by the real find with -print0/-print (root spelled r, ./r, r/, absolute); stdout must equal the concatenation of the known path bytes plus terminator, and the argv recorded behind xargs -0 must be the same sequence.",
+        note="Valid UTF-8 names only (as the statement says); tmpfs.",
+        ref="DESIGN.md section 4 C07"),
+    "C08": dict(
+        technique="runtime monitoring: recorder event log (argv+cwd per child) checked for exactly-once/order/fixed-prefix/one-directory-per-batch invariants against the reference evaluation; strace execve log (E2BIG = refutation); exit status under scripted failures",
+        level="exploration",
+        text="Small runs: random and hostile trees x 8 expression shapes (after tests, in -o, negated, -quit, two + actions, -depth, -maxdepth) x -exec/-execdir x 1-2 starting points x scripted failing batches / missing command. Big runs: 2000-6000 (quick) / to 40000 (thorough) paths with 100-240-byte names in flat and deep layouts under RLIMIT_STACK 512KiB..unlimited and padded environments, traced with strace, giving up to dozens of batches per run.",
+        note="Starting points spelled without '..' or '/.'; verdict for this kernel's execve accounting.",
+        ref="DESIGN.md section 4 C08"),
+    "C09": dict(
+        technique="runtime monitoring: recorder argv/cwd per child vs textual substitution model; truth value observed through a following labelled action; find exit status",
+        level="exploration",
+        text="Hostile file names x argument templates with 0-3 {} per argument (embedded, adjacent, lone braces, empty arguments, arguments that look like find primaries) x -exec/-execdir x 7 placements of the action (plain, after tests, negated, in -o, twice, missing command); the recorder's exit status is a pure function of argv, so the expected truth of every evaluation is computable.",
+        note="'{}' in the command name itself not judged; starting point spelled 'r'.",
+        ref="DESIGN.md section 4 C09"),
+    "C10": dict(
+        technique="runtime monitoring: strace log of every mutating syscall of find + before/after snapshots of the sandbox and of the directories links point to, vs a model replay of the -depth -print order on a twin copy",
+        level="exploration",
+        text="Sandboxes with nested directories, links to files and directories inside and outside the starting points, dangling links; state-independent expressions leaving some matched directories non-empty; follow modes -P/-H/-L; 1-2 starting points incl. a symlinked one. Successful removals in the strace log must equal the replayed ones in order, no other mutating syscall may occur, the after-snapshot must equal the twin's, and exit status/diagnostic/truth must reflect failed removals.",
+        note="Tests whose truth depends on earlier deletions (-empty, -links, -newer*) not used.",
+        ref="DESIGN.md section 4 C10"),
     "C19": dict(
         technique="runtime monitoring: scripted recorder outcomes, exit status and number of invocations started vs the documented function; bounded-exhaustive over outcome classes",
         level="exploration",
